@@ -185,5 +185,128 @@ def replay_mtime():
 
 def units(tier):
     M = "vf.props.c02"
-    return [Unit("a.attributes", M, "attributes", {}, 900)] + [
+    return [Unit("a.attributes", M, "attributes", {}, 900), Unit("c.writeall_dispatch", M, "writeall_dispatch", {}, 600)] + [
         Unit("b.mtime_roundtrip[2^%d..2^%d]" % (e2, e2 + 1), M, "mtime_roundtrip", dict(e2=e2), 900) for e2 in range(0, 32)]
+
+
+# ---------------------------------------------------------------- c. one step of the writeall walk
+def writeall_dispatch():
+    """SevenZipFile._writeall on a stub node of symbolic kind x dereference: which nodes are written, which recursed"""
+    import os
+
+    r = ObResult(bounds="one directory level: a node that is a regular file / directory (2 children) / symlink to a file / "
+                        "symlink to a directory / dangling symlink / other kind, dereference on or off (all symbolic)")
+    eng = Engine([PZ, HP], intmode="int")
+    kind = eng.sym_int("kind", 3)      # 0 file, 1 dir, 2 link->file, 3 link->dir, 4 dangling link, 5 other (fifo)
+    deref = z3.Bool("dereference")
+    written = []
+
+    class Node(Native):
+        import pathlib as _pl
+
+        isa = (_pl.Path,)
+
+        def __init__(self, name, k, children=()):
+            self.name, self.k, self.children = name, k, list(children)
+
+        def is_symlink(self, e):
+            return self.k in (2, 3, 4)
+
+        def is_file(self, e):
+            return self.k in (0, 2)
+
+        def is_dir(self, e):
+            return self.k in (1, 3)
+
+        def samefile(self, e, other):
+            return False
+
+        def joinpath(self, e, nm):
+            return [c for c in self.children if c.name.endswith("/" + nm)][0]
+
+        def __str__(self):
+            return self.name
+
+    def harness(e):
+        del written[:]
+        e.assume(e.compare(ast.LtE(), kind, 5))
+        k = 5
+        for c in range(5):
+            if e.branch(e.compare(ast.Eq(), kind, c)):
+                k = c
+                break
+        d = e.branch(deref)
+        kids = [Node("top/k1", 0), Node("top/k2", 0)] if k in (1, 3) else []
+        top = Node("top", k, kids)
+        e.models.reg(os.listdir, lambda e_, p: ["k2", "k1"] if kids else [])
+        z = SObj(e.cls(PZ, "SevenZipFile"))
+        z.attrs["dereference"] = d
+        e.overrides[(PZ, "SevenZipFile.write")] = lambda e_, self_, path, arcname=None: written.append((path.name, arcname))
+        e.method(z, "_writeall", top, "arc")
+        return dict(k=k, d=d, written=list(written))
+
+    def post(o):
+        k, d, w = o["k"], o["d"], o["written"]
+        if k == 0 or k == 2 and d:
+            want = [("top", "arc")]
+        elif k == 1 or (k == 3 and d):
+            want = [("top", "arc"), ("top/k1", "arc/k1"), ("top/k2", "arc/k2")]   # the directory itself, then children sorted
+        elif k in (2, 3, 4) and not d:
+            want = [("top", "arc")]                                               # the link itself is stored
+        else:
+            want = []                                                             # dangling link when dereferencing, other kinds
+        return [w == want]
+
+    decide(eng, harness, post, {"kind": kind, "dereference": deref}, r, describe=lambda o: "kind=%d deref=%s -> %s" % (o["k"], o["d"], o["written"]))
+    _cex(r, "writeall_dispatch", lambda w: dict(module="vf.props.c02", func="replay_writeall", kwargs=dict(kind=int(w["kind"]), deref=bool(w["dereference"]))),
+         signature=lambda w: {"obligation": "writeall_dispatch"})
+    return r
+
+
+def replay_writeall(kind, deref):
+    import io
+    import os
+    import shutil
+    import tempfile
+
+    import py7zr
+
+    d = tempfile.mkdtemp(prefix="vf_c02w_")
+    cwd = os.getcwd()
+    try:
+        os.chdir(d)
+        if kind == 0:
+            open("top", "wb").write(b"x")
+        elif kind == 1:
+            os.mkdir("top")
+        elif kind in (2, 3, 4):
+            if kind == 2:
+                open("tf", "wb").write(b"x")
+            if kind == 3:
+                os.mkdir("td")
+                open("td/k1", "wb").write(b"1")
+                open("td/k2", "wb").write(b"2")
+            os.symlink({2: "tf", 3: "td", 4: "nowhere"}[kind], "top")
+        else:
+            os.mkfifo("top")
+        if kind == 1:
+            open("top/k1", "wb").write(b"1")
+            open("top/k2", "wb").write(b"2")
+        buf = io.BytesIO()
+        z = py7zr.SevenZipFile(buf, "w", dereference=deref, filters=[{"id": py7zr.FILTER_COPY}])
+        try:
+            z._writeall(__import__("pathlib").Path("top"), "arc")
+            z.close()
+        except Exception as e:  # noqa
+            return True, "writeall raised %r" % (e,)
+        names = py7zr.SevenZipFile(io.BytesIO(buf.getvalue())).getnames()
+        if kind == 0 or (kind == 2 and deref) or (kind in (2, 3, 4) and not deref):
+            want = ["arc"]
+        elif kind == 1 or (kind == 3 and deref):
+            want = ["arc", "arc/k1", "arc/k2"]
+        else:
+            want = []
+        return names != want, "kind=%d deref=%s: archive lists %s, expected %s" % (kind, deref, names, want)
+    finally:
+        os.chdir(cwd)
+        shutil.rmtree(d, ignore_errors=True)
